@@ -1278,6 +1278,119 @@ pub fn drive_c12(t: &Tier, m: &mut Matrix, sink: &mut Sink) {
     }
 }
 
+/// C12, wide instantiations outside the kind matrix: `Bvf<u8, 32>`, `Bvf<u16, 16>`, `Bvf<u32, 8>` (256 bits
+/// of narrow words: the re-chunking helpers run at word indices the 4-word kinds never reach) converted to
+/// and from `Bvf<u64, 4>`, `Bvf<u128, 2>`, `Bvf<u128, 1>`, `Bvd`, `Bv` and one another.  The events carry
+/// class / capacity like any other; the specification does not know kind names.
+pub fn drive_c12_wide(t: &Tier, sink: &mut Sink, execs: &mut u64) {
+    sink.emit(c12_wide_events(t, execs));
+}
+
+/// the events of drive_c12_wide (also used to re-run one of them from a replay file)
+pub fn c12_wide_events(t: &Tier, execs: &mut u64) -> Vec<Value> {
+    use bva::{Bv, Bvd, Bvf};
+    use std::convert::TryFrom;
+    type W8 = Bvf<u8, 32>;
+    type W16 = Bvf<u16, 16>;
+    type W32 = Bvf<u32, 8>;
+    type Q64 = Bvf<u64, 4>;
+    type Q128 = Bvf<u128, 2>;
+    type S128 = Bvf<u128, 1>;
+    let mut rng = Rng::new(t.seed ^ 0xC12_32);
+    let mut vals: Vec<Bits> = Vec::new();
+    for n in [0usize, 1, 8, 64, 65, 127, 128, 129, 191, 192, 193, 200, 248, 255, 256] {
+        vals.push(ones(n));
+        vals.push(random_bits_uniform(&mut rng, n));
+        if n > 0 {
+            let mut v = zeros(n);
+            v[n - 1] = 1;
+            vals.push(v);
+        }
+        if !t.quick {
+            for p in patterns_small(n) {
+                vals.push(p);
+            }
+            vals.push(random_bits(&mut rng, n));
+        }
+    }
+    vals.sort();
+    vals.dedup();
+    let mut evs: Vec<Value> = Vec::new();
+    fn event(dbg: bool, sk: &str, scl: &str, scap: usize, bits: &Bits, tk: &str, tcl: &str, tcap: usize, byval: bool, o: Out, after: Option<Bits>) -> Value {
+        let a = if byval { json!({"byval": 1}) } else { json!({}) };
+        let post = after.unwrap_or_else(|| bits.clone());
+        let cap = if scl == "F" { scap } else { bits.len().max(scap) };
+        json!({"op": "convert", "f": "", "r": "s", "nb": 1, "cf": "fun", "dbg": dbg as u8,
+               "x": {"k": sk, "cl": scl, "c": cap, "b": bits, "m": "-", "p": "fresh"},
+               "y": {"k": tk, "cl": tcl, "c": tcap, "b": []}, "a": a,
+               "px": {"b": post, "n": bits.len(), "c": cap, "m": "-", "ok": 1}, "py": [], "o": o.to_json(), "cov": 1})
+    }
+    macro_rules! wide_r {
+        ($S:ty, $sk:expr, $scl:expr, $scap:expr, $T:ty, $tk:expr, $tcl:expr, $tcap:expr) => {
+            for b in vals.iter().filter(|b| $scl != "F" || b.len() <= $scap) {
+                let r = std::panic::catch_unwind(|| {
+                    let s: $S = build::<$S>(b);
+                    let res: Result<$T, String> = <$T>::try_from(&s).map_err(|e| format!("{:?}", e));
+                    let after = bits_of(&s);
+                    (match res {
+                        Ok(v) => Out::Vec(bits_of(&v)),
+                        Err(e) => { if e.contains("NotEnoughCapacity") { Out::ErrCap } else { Out::Panic } }
+                    }, after)
+                });
+                let (o, after) = match r { Ok((o, a)) => (o, Some(a)), Err(_) => (Out::Panic, None) };
+                *execs += 1;
+                evs.push(event(t.dbg, $sk, $scl, $scap, b, $tk, $tcl, $tcap, false, o, after));
+            }
+        };
+    }
+    macro_rules! wide_v {
+        ($S:ty, $sk:expr, $scl:expr, $scap:expr, $T:ty, $tk:expr, $tcl:expr, $tcap:expr) => {
+            for b in vals.iter().filter(|b| $scl != "F" || b.len() <= $scap) {
+                let r = std::panic::catch_unwind(|| {
+                    let s: $S = build::<$S>(b);
+                    let res: Result<$T, String> = <$T>::try_from(s).map_err(|e| format!("{:?}", e));
+                    match res {
+                        Ok(v) => Out::Vec(bits_of(&v)),
+                        Err(e) => { if e.contains("NotEnoughCapacity") { Out::ErrCap } else { Out::Panic } }
+                    }
+                });
+                let o = r.unwrap_or(Out::Panic);
+                *execs += 1;
+                evs.push(event(t.dbg, $sk, $scl, $scap, b, $tk, $tcl, $tcap, true, o, None));
+            }
+        };
+    }
+    // narrow-word sources into wide-word targets and back (by reference: the only form between fixed types),
+    // growable targets by reference and by value, growable sources by reference
+    wide_r!(W8, "F8x32", "F", 256, Q128, "F128x2", "F", 256);
+    wide_r!(W8, "F8x32", "F", 256, Q64, "F64x4", "F", 256);
+    wide_r!(W8, "F8x32", "F", 256, S128, "F128x1", "F", 128);
+    wide_r!(W8, "F8x32", "F", 256, W16, "F16x16", "F", 256);
+    wide_r!(W8, "F8x32", "F", 256, W32, "F32x8", "F", 256);
+    wide_r!(W8, "F8x32", "F", 256, Bvd, "D", "D", 0);
+    wide_v!(W8, "F8x32", "F", 256, Bvd, "D", "D", 0);
+    wide_r!(W8, "F8x32", "F", 256, Bv, "A", "A", 0);
+    wide_v!(W8, "F8x32", "F", 256, Bv, "A", "A", 0);
+    wide_r!(W16, "F16x16", "F", 256, Q128, "F128x2", "F", 256);
+    wide_r!(W16, "F16x16", "F", 256, Q64, "F64x4", "F", 256);
+    wide_r!(W16, "F16x16", "F", 256, W8, "F8x32", "F", 256);
+    wide_r!(W16, "F16x16", "F", 256, Bvd, "D", "D", 0);
+    wide_v!(W16, "F16x16", "F", 256, Bv, "A", "A", 0);
+    wide_r!(W32, "F32x8", "F", 256, Q128, "F128x2", "F", 256);
+    wide_r!(W32, "F32x8", "F", 256, W8, "F8x32", "F", 256);
+    wide_r!(W32, "F32x8", "F", 256, Bv, "A", "A", 0);
+    wide_v!(W32, "F32x8", "F", 256, Bvd, "D", "D", 0);
+    wide_r!(Q128, "F128x2", "F", 256, W8, "F8x32", "F", 256);
+    wide_r!(Q128, "F128x2", "F", 256, W16, "F16x16", "F", 256);
+    wide_r!(Q128, "F128x2", "F", 256, W32, "F32x8", "F", 256);
+    wide_r!(Q64, "F64x4", "F", 256, W8, "F8x32", "F", 256);
+    wide_r!(Bvd, "D", "D", 0, W8, "F8x32", "F", 256);
+    wide_r!(Bvd, "D", "D", 0, W16, "F16x16", "F", 256);
+    wide_r!(Bv, "A", "A", 0, W8, "F8x32", "F", 256);
+    wide_r!(Bv, "A", "A", 0, W32, "F32x8", "F", 256);
+    evs
+}
+
 // ------------------------------------------------------------------------------------------------
 // C07 (function-contract part): every edit with operands of every kind
 // ------------------------------------------------------------------------------------------------
